@@ -5,6 +5,7 @@
 -/
 import Zed.Proofs.Rows
 import Zed.Proofs.Merge
+import Zed.Proofs.MergeOp
 namespace Zed.Props.C06
 open Zed
 
@@ -177,6 +178,60 @@ theorem merge_sorted_rows_hyps (nullsMax : Bool) (dirs : List Bool) (m : Bool) :
     (∀ a : Row, leRow nullsMax dirs a a = true) :=
   ⟨fun a b c ha hb hc => leRow_trans nullsMax dirs m a b c ha hb hc,
    fun a => by have := leRow_total nullsMax dirs a a; simpa using this⟩
+
+/-- Obligation on the regenerated facts: the shape of `merge.Op` the replay model
+    (`Zed.Model.MergeOp`) was written for — `Pull` pops the heap's minimum, the whole-batch rule, the
+    fall back to a `zbuf` puller over `Read`, `Read` taking `hol[0].vals[0]`, the heap order, EOS on an
+    empty heap, and a puller batch being full at `PullerBatchValues` values. -/
+theorem mergeOp_shape :
+    Generated.C06.mergeBatchRule = "o.Len() == 0 || o.cmp(min.vals[len(min.vals)-1], o.hol[0].vals[0]) <= 0" ∧
+    Generated.C06.mergeBatchBody =
+      ["batch := min.batch", "if len(min.vals) < len(batch.Values())", "ok, err := min.replenish()",
+       "if err != nil", "if ok", "return batch, nil"] ∧
+    Generated.C06.mergeReadPath = ["heap.Push(o, min)", "return zbuf.NewPuller(o).Pull(false)"] ∧
+    Generated.C06.mergeEos = "return nil, o.start()" ∧
+    Generated.C06.mergeRead =
+      ["if o.unref != nil", "if o.Len() == 0", "u := o.hol[0]", "val := &u.vals[0]", "u.vals = u.vals[1:]",
+       "if len(u.vals) == 0", "heap.Fix(o, 0)", "return val, nil"] ∧
+    Generated.C06.mergeLess = "o.cmp(o.hol[i].vals[0], o.hol[j].vals[0]) < 0" ∧
+    Generated.C06.pullerBatchFull = "bufFull || len(b.vals) == cap(b.vals)" ∧
+    Generated.C06.pullerBatchCap = "make([]zed.Value, PullerBatchValues)" ∧
+    0 < pullerBatchValues := by decide
+
+/-- **merge_sorted for every choice sequence of the heap** (`merge.Op` itself: heap of parents,
+    refill, whole-batch emission rule, read path with the puller's value limit).  `acceptRun` replays
+    a sequence of `Pull` results — for every value the parent the heap chose — against the rules of
+    merge.go; the T2 tie sends what the real operator did.  Every accepted sequence over sorted
+    parents is sorted and delivers every input value exactly once. -/
+theorem mergeOp_sorted {α : Type} (le : α → α → Bool)
+    (trans : ∀ a b c, le a b = true → le b c = true → le a c = true) (refl : ∀ a, le a a = true)
+    (limit : Nat) (parents : MState α) (choices : List (List Nat)) (outs : List (List α))
+    (hn : MNoEmpty parents) (h : acceptRun le limit parents choices = some outs)
+    (hs : ∀ p ∈ parents, p.flatten.Pairwise (fun a b => le a b = true)) :
+    outs.flatten.Pairwise (fun a b => le a b = true) ∧
+    outs.flatten.Perm (parents.map List.flatten).flatten :=
+  mergeOp_sorted_on le (fun _ => True) (fun a b c _ _ _ => trans a b c) refl limit parents choices outs hn h
+    (fun _ _ _ _ _ _ => trivial) hs
+
+/-- the same for rows under the Comparator (`Compare(a, b) <= 0`), guarded rows only -/
+theorem mergeOp_sorted_rows (nullsMax : Bool) (dirs : List Bool) (m : Bool)
+    (parents : MState Row) (choices : List (List Nat)) (outs : List (List Row))
+    (hn : MNoEmpty parents)
+    (h : acceptRun (leRowM nullsMax dirs) pullerBatchValues parents choices = some outs)
+    (hok : ∀ p ∈ parents, ∀ b ∈ p, ∀ r ∈ b, r.okFor dirs m)
+    (hs : ∀ p ∈ parents, p.flatten.Pairwise (fun a b => leRowM nullsMax dirs a b = true)) :
+    outs.flatten.Pairwise (fun a b => leRowM nullsMax dirs a b = true) ∧
+    outs.flatten.Perm (parents.map List.flatten).flatten := by
+  have e : leRowM nullsMax dirs = leRow nullsMax dirs := by
+    funext a b
+    have := leRow_iff nullsMax dirs a b
+    cases h1 : leRow nullsMax dirs a b <;> cases h2 : cmpRow nullsMax dirs a b <;>
+      simp_all [leRowM]
+  rw [e] at h hs ⊢
+  exact mergeOp_sorted_on (leRow nullsMax dirs) (fun r => r.okFor dirs m)
+    (fun a b c ha hb hc => leRow_trans nullsMax dirs m a b c ha hb hc)
+    (fun a => by have := leRow_total nullsMax dirs a a; simpa using this)
+    pullerBatchValues parents choices outs hn h hok hs
 
 /-- non-vacuity of the row guard -/
 example : (Row.mk [.num tInt64 (.int 5), .null tFloat64] 0).okFor [false, true] true := by
